@@ -58,11 +58,23 @@ Definition expected_sites : list (string * string * gate) :=
 Definition gated (hs : list handler) (g : gate) : list (string * string * gate) :=
   map handler_key (filter (fun h => gate_eqb (h_gate h) g) hs).
 
+(** one control-flow path of app/wasmext from the contract-message entry point (DispatchMsg) to the
+    Msg router lookup: the switch / type-switch branches it takes, and whether the guard "every signer
+    of the dispatched message is the dispatching contract" lies on it *)
+Record route_path := { rp_branch : string; rp_signer_guard : bool }.
+
 Record facts := {
   f_sites : list gate_site;
   f_handlers : list handler;
-  f_gate_functions : list string
+  f_gate_functions : list string;
+  f_wasm_routes : list route_path
 }.
+
+(** the wrapper-guard switch of the model ([Model.c_wguard]) as read off the tree: a message a
+    contract dispatches reaches the router only past the signer guard, on EVERY branch — also the
+    branches taken by wrapper messages (MsgExec, MsgExecuteContract) *)
+Definition wguard_of (f : facts) : bool :=
+  match f_wasm_routes f with [] => false | _ => forallb rp_signer_guard (f_wasm_routes f) end.
 
 Fixpoint strs_eqb (a b : list string) : bool :=
   match a, b with
@@ -75,11 +87,13 @@ Fixpoint strs_eqb (a b : list string) : bool :=
     $0 $1, receiver $r), whatever their name, receiver or file:
       root test on the strings (AddContracts / RemoveContracts)   — Model.v [sender =? root s]
       root test on the decoded addresses (ChangeRoot)             — Model.v [sender =? root s]
-      CheckPermissions: listed contract or root                    — Model.v [permitted] *)
+      CheckPermissions: listed contract or root                    — Model.v [permitted]
+    ([member(X,y)] is the generator's one spelling of a list-membership test: set.New(X...).Has(y) or
+    slices.Contains(X,y); any other lookup, e.g. a binary search, keeps its own text) *)
 Definition model_gate_functions : list string :=
   ["GateRoot:$0==$1";
    "GateRoot:sdk.AccAddressFromBech32($0.Root).Equals(sdk.AccAddressFromBech32($1.Sender))";
-   "GateSudoers:set.New($r.Sudoers.Get($1).Contracts...).Has($0.String())||$0.String()==$r.Sudoers.Get($1).Root"].
+   "GateSudoers:member($r.Sudoers.Get($1).Contracts,$0.String())||$0.String()==$r.Sudoers.Get($1).Root"].
 
 (** what the model assumes about the code, as a check on the generated facts *)
 Definition facts_ok (f : facts) : bool :=
@@ -91,4 +105,6 @@ Definition facts_ok (f : facts) : bool :=
   keys_eqb (map site_key (f_sites f)) expected_sites &&
   forallb gs_gate_first (f_sites f) &&
   (* the gate functions compute what the model's [permitted] / root test computes *)
-  strs_eqb (f_gate_functions f) model_gate_functions.
+  strs_eqb (f_gate_functions f) model_gate_functions &&
+  (* whatever a contract dispatches is checked against the contract, wrappers included *)
+  wguard_of f.
